@@ -71,19 +71,43 @@ def run(cmd, cwd=None, timeout=None, env=None, check=False, stdin=None):
 # ---------------------------------------------------------------------------------------------
 # harness build: always rebuilt from /repo's current working tree, hooks on (-tags verif)
 
+def _harness_dir():
+    """The harness module directory to build in. With VERIF_REPO pointing at another checkout (mutant testing
+    in a scratch worktree) a scratch copy of the module is made whose replace line points there."""
+    if os.path.realpath(REPO) == "/repo":
+        return HARNESS, os.path.join(BUILD, "vh")
+    d = scratch("harness-")
+    h = os.path.join(d, "harness")
+    shutil.copytree(HARNESS, h)
+    gm = open(os.path.join(h, "go.mod")).read()
+    gm = gm.replace("github.com/ovrclk/akash => /repo", "github.com/ovrclk/akash => " + os.path.realpath(REPO))
+    open(os.path.join(h, "go.mod"), "w").write(gm)
+    return h, os.path.join(d, "vh")
+
+
+_hdir = None
+
+
+def harness_dir():
+    global _hdir
+    if _hdir is None:
+        _hdir = _harness_dir()
+    return _hdir
+
+
 def build_harness():
-    """Build /verif/harness/cmd/vh against /repo (working tree) with -tags verif. Returns binary path."""
+    """Build harness/cmd/vh against the repo working tree (VERIF_REPO, default /repo) with -tags verif."""
     os.makedirs(BUILD, exist_ok=True)
+    hdir, final = harness_dir()
     lock = open(os.path.join(BUILD, ".lock"), "w")
     fcntl.flock(lock, fcntl.LOCK_EX)
     try:
-        shutil.copyfile(os.path.join(REPO, "go.sum"), os.path.join(HARNESS, "go.sum"))
-        out = os.path.join(BUILD, "vh.%d" % os.getpid())
+        shutil.copyfile(os.path.join(REPO, "go.sum"), os.path.join(hdir, "go.sum"))
+        out = final + ".%d" % os.getpid()
         t0 = time.time()
-        rc, txt = run(["go", "build", "-tags", "verif", "-o", out, "./cmd/vh"], cwd=HARNESS, env=GOENV, timeout=1500)
+        rc, txt = run(["go", "build", "-tags", "verif", "-o", out, "./cmd/vh"], cwd=hdir, env=GOENV, timeout=1500)
         if rc != 0:
-            raise Inconclusive("harness build failed (does /repo still compile?):\n" + txt[-6000:])
-        final = os.path.join(BUILD, "vh")
+            raise Inconclusive("harness build failed (does the repo still compile?):\n" + txt[-6000:])
         os.replace(out, final)
         log("[build] harness built in %.1fs" % (time.time() - t0))
         return final
@@ -94,11 +118,12 @@ def build_harness():
 
 def go_test(pkg_dir, args, timeout=1500, env_extra=None):
     """Run `go test -tags verif` inside /verif/harness for a harness package (used by a few families)."""
-    shutil.copyfile(os.path.join(REPO, "go.sum"), os.path.join(HARNESS, "go.sum"))
+    hdir, _ = harness_dir()
+    shutil.copyfile(os.path.join(REPO, "go.sum"), os.path.join(hdir, "go.sum"))
     env = dict(GOENV)
     if env_extra:
         env.update(env_extra)
-    return run(["go", "test", "-tags", "verif", "-count=1"] + args + [pkg_dir], cwd=HARNESS, env=env, timeout=timeout)
+    return run(["go", "test", "-tags", "verif", "-count=1"] + args + [pkg_dir], cwd=hdir, env=env, timeout=timeout)
 
 
 # ---------------------------------------------------------------------------------------------
@@ -128,7 +153,7 @@ _RE_STATES = re.compile(r"(\d+) states generated, (\d+) distinct states found")
 _RE_DEPTH = re.compile(r"The depth of the complete state graph search is (\d+)")
 _RE_INV = re.compile(r"Error: Invariant (\S+) is violated")
 _RE_ACT = re.compile(r"Error: Action property (\S+) is violated")
-_RE_POST = re.compile(r"[Pp]ost-?condition (\S+) (?:is violated|was violated|failed)")
+_RE_POST = re.compile(r"Error: Postcondition (\S+) .*is false")
 _RE_SIM = re.compile(r"generated (\d+) states|(\d+) states checked")
 
 
